@@ -108,14 +108,32 @@ fn expand_env(w: &[u8]) -> Vec<Vec<u8>> {
 }
 
 pub fn read_execstart(unit_text: &str) -> Result<Vec<Vec<u8>>, String> {
-  let mut lines = unit_text.split('\n');
-  let mut found: Option<&str> = None;
-  let mut after = vec![];
-  for l in &mut lines { if l.starts_with("ExecStart=") { found = Some(l); break; } }
-  for l in lines { if !l.is_empty() { after.push(l); } }
-  let line = found.ok_or("no ExecStart line")?;
-  if !after.is_empty() { return Err(format!("text after the ExecStart line: {:?}", after)); }
-  if line.ends_with('\\') && !line.ends_with("\\\\") { return Err("line continuation".into()); }
+  // unit-file line structure (systemd.syntax(7)): a trailing backslash continues the line (it is replaced by a space),
+  // and a physical line starting with # or ; is a comment that is ignored even inside a continued line
+  let phys: Vec<&str> = unit_text.split('\n').collect();
+  let mut i = 0;
+  let mut logical: Option<String> = None;
+  let mut after: Vec<String> = vec![];
+  while i < phys.len() {
+    let l = phys[i];
+    if logical.is_none() {
+      if l.starts_with("ExecStart=") {
+        let mut cur = l.to_string();
+        while cur.ends_with('\\') {
+          cur.pop(); cur.push(' ');
+          i += 1;
+          // comment test after skipping leading whitespace, as systemd's config parser does
+          while i < phys.len() && { let t = phys[i].trim_start_matches(|c| c == ' ' || c == '\t'); t.starts_with('#') || t.starts_with(';') } { i += 1; }
+          if i >= phys.len() { break; }
+          cur.push_str(phys[i]);
+        }
+        logical = Some(cur);
+      }
+    } else if !l.is_empty() { after.push(l.to_string()); }
+    i += 1;
+  }
+  let line = logical.ok_or("no ExecStart line")?;
+  if !after.is_empty() { return Err(format!("text after the ExecStart line: {:?}", after.iter().take(3).collect::<Vec<_>>())); }
   let words = split_words(&line["ExecStart=".len()..])?;
   let mut out = vec![];
   for w in words { for x in expand_env(&expand_specifiers(&w)) { out.push(x); } }
@@ -188,7 +206,7 @@ impl Acc {
   }
 }
 
-pub const SYNTAX_ALPHABET: [char; 21] = [' ', '\t', '\n', '\\', '\'', '"', '%', '$', '{', '}', '*', '?', ';', 'a', '1', 'n', 'i', '\x1b', '\x7f', '\u{85}', 'é'];
+pub const SYNTAX_ALPHABET: [char; 22] = [' ', '\t', '\n', '\\', '\'', '"', '%', '$', '{', '}', '*', '?', ';', '#', 'a', '1', 'n', 'i', '\x1b', '\x7f', '\u{85}', 'é'];
 
 pub fn run(ctx: &Ctx) -> Outcome {
   let q = ctx.tier == Tier::Quick;
@@ -242,7 +260,10 @@ pub fn run(ctx: &Ctx) -> Outcome {
   let sizes = [1usize, 2, 3, 4, 7, 8, 9, 15, 16, 17, 31, 32, 33, 63, 64, 65, 127, 128, 129, 255, 256, 257];
   let before = total.evaluations;
   for c in &alpha { for n in &sizes { let s: String = std::iter::repeat(*c).take(*n).collect(); total.run(&[&s]); let t = format!("{}a{}", s, c); total.run(&[&t]); } }
-  for n in &sizes {
+  let mut list_sizes: Vec<usize> = sizes.to_vec(); for n in (100..=260).step_by(7) { list_sizes.push(n); }
+  for n in &list_sizes {
+    // every rotation of the alphabet: each character leads a pattern at many different offsets of the line
+    for rot in 0..alpha.len() { let l: Vec<String> = (0..*n).map(|i| format!("{}{} Footswitch", alpha[(i + rot) % alpha.len()], i)).collect(); let r: Vec<&str> = l.iter().map(|s| s.as_str()).collect(); if *n >= 100 { total.run(&r); } }
     let many: Vec<String> = (0..*n).map(|i| format!("{}{}", alpha[i % alpha.len()], i)).collect();
     let refs: Vec<&str> = many.iter().map(|s| s.as_str()).collect();
     total.run(&refs);
